@@ -256,17 +256,19 @@ impl<const D: usize> DynSampler for SampleGenerator<D> {
     fn d(&self) -> usize {
         D
     }
+    // a panic inside an accessor of the code under test is data, not a harness crash: it shows up as an
+    // impossible value that no expectation matches
     fn dim(&self) -> usize {
-        self.get_dimension()
+        catch_unwind(AssertUnwindSafe(|| self.get_dimension())).unwrap_or(usize::MAX)
     }
     fn dod(&self) -> f64 {
-        self.get_dod()
+        catch_unwind(AssertUnwindSafe(|| self.get_dod())).unwrap_or(f64::NAN)
     }
     fn num_edges(&self) -> usize {
-        self.get_num_edges()
+        catch_unwind(AssertUnwindSafe(|| self.get_num_edges())).unwrap_or(usize::MAX)
     }
     fn weights(&self) -> Vec<f64> {
-        self.iter_edge_weights().collect()
+        catch_unwind(AssertUnwindSafe(|| self.iter_edge_weights().collect())).unwrap_or_default()
     }
     fn smallest_dod(&self) -> Result<f64, String> {
         catch_unwind(AssertUnwindSafe(|| self.get_smallest_dod())).map_err(panic_msg)
